@@ -56,6 +56,16 @@ def gen_cases(chk):
     for ty, nn in ((1, 125000), (1, 131072), (0, 262144), (9, 131072), (7, 262144)):
         for cfg in ("-", "losslessCompressor=GZIP_COMPRESSOR"):
             cases.append("mem %s c:%x:0:%s:%s:0:0,0,0,0,%x:7:%x:%s/d:0" % (cfg, ty, dbits(1e-300 if ty < 2 else 1.0), dbits(1e-3), nn, 0x51 + ty, dbits(1e18 if ty >= 2 else 1.0)))
+    # small compressible 1-D arrays of every length 21..170: the stream of such an array is within a few bytes of the raw size, i.e. on either side of the
+    # "not smaller than the raw data: keep the raw data" decision and of the buffer that decision writes into
+    for ty in (0, 1):
+        for absb, kind in ((0.1, 0), (1e-3, 0), (0.1, 2)):
+            for lo in range(21, 171, 30):
+                h = []
+                for ln in range(lo, min(lo + 30, 171)):
+                    h.append("c:%x:0:%s:%s:0:0,0,0,0,%x:%d:%x:%s" % (ty, dbits(absb), dbits(1e-3), ln, kind, 0x11 + ln, dbits(10.0 if kind == 0 else 1.0)))
+                h += ["d:%d" % k for k in range(len(h))]
+                cases.append("mem szMode=SZ_BEST_SPEED %s" % "/".join(h))
     n = 300 if thorough else 60
     for i in range(n):
         cfg = rng.choice(CFGS)
